@@ -53,7 +53,13 @@ def triple_record(av, bv, cv, x, dts):
             d['mab'] = f32_fields(row[0]); d['maa'] = f32_fields(row[1]); d['mac'] = f32_fields(row[2])
             sq = jaccarddist_pairwise(coll, indices=[3, 0, 2, 1])                     # rows/columns: B, B, A, C
             d['mbc'] = f32_fields(sq[1][3])
-            if not (f32_fields(row[3]) == d['mab'] and f32_fields(sq[0][2]) == f32_fields(sq[2][0])):
+            # more selected columns than stored references (repeats), computed chunk by chunk into a caller-supplied array
+            sel = [0, 2, 1, 3, 0, 2, 1, 3, 3]
+            outm = np.full((1, len(sel)), -1, dtype=np.float32)
+            long_row = jaccarddist_matrix([A], coll, ref_indices=sel, chunksize=2, out=outm)[0]
+            want = [row[[0, 2, 1, 3].index(j)] for j in sel]
+            if not (f32_fields(row[3]) == d['mab'] and f32_fields(sq[0][2]) == f32_fields(sq[2][0])
+                    and [f32_fields(x) for x in long_row] == [f32_fields(x) for x in want]):
                 d['mab'] = dict(d['mab'], bad='index-selected columns disagree with each other')
         else:
             d['mab'] = d['ab']; d['mac'] = d['ac']; d['mbc'] = d['bc']
